@@ -3,16 +3,58 @@
   `CHECK <id> chk_fill <rule> <mode> <delta> <nE> … <nT> …`
   `CASE <id> sweep:32 …` / `CASE <id> sweepc:32 …` the model of the sweep itself on polygonal / curved
   input (`Drive/Sweep.lean`), compared token by token with the real tessellator's complete output.
+  `CASE <id> sweepcert:32 …` (same arguments as `sweep:32`): the executable winding-conservation
+  certificate of the run (`Model/Tess/SweepCert.lean`), the hypothesis of
+  `Lyon.C01b.sweep_no_panic_certified` (a theorem for every scalar type, so also for the `f32` run
+  evaluated here).  Answer `cert ok` when the input is not finite / the tolerance invalid, or the
+  certificate `cleanB` evaluates to `true` (then the theorem says: this run can only panic on the
+  assertion or a NaN sort key); `cert FAIL …` for a finite input whose certificate is false - a
+  counterexample to winding conservation or to the coherence after a recovery, never seen.
 -/
 import LyonVerif.Drive.Common
 import LyonVerif.Drive.SlabIO
 import LyonVerif.Drive.Sweep
+import LyonVerif.Model.Tess.SweepCert
 
 namespace Lyon.Drive.C01
-open Lyon Lyon.Drive
+open Lyon Lyon.Drive Lyon.Sweep Lyon.EQ
+
+def finiteSubs (subs : List (SubPath Float32)) : Bool :=
+  subs.all fun sp => sp.1.all fun p => p.x.isFinite && p.y.isFinite
+
+def sweepCert (v : Array String) : String :=
+  let rule : Slab.Rule := if rdNat v 0 == 0 then .evenOdd else .nonZero
+  let horizontal := rdNat v 1 == 1
+  let tol : Float32 := rd v 2
+  let entry := Lyon.Drive.Sweep.entryOf (v.getD 3 "")
+  let hi := rdNat v 4 == 1
+  let subs : List (SubPath Float32) := Lyon.Drive.Sweep.rdSubs v (rdNat v 5) 6
+  if !finiteSubs subs || tol.isNaN || tol ≤ 0 then "cert ok"   -- outside the theorem: not finite / `ToleranceIsNaN`
+  else
+    if Lyon.SweepCoh.cleanB entry rule horizontal tol hi subs then "cert ok"
+    else
+      let r := tessellate entry rule horizontal tol hi subs
+      s!"cert FAIL clean=false recover={r.2.2 % 2}"
+
+/-- diagnosis only (not part of the tie): why `sweepCert` answered `cert ok` -/
+def sweepCertWhy (v : Array String) : String :=
+  let rule : Slab.Rule := if rdNat v 0 == 0 then .evenOdd else .nonZero
+  let horizontal := rdNat v 1 == 1
+  let tol : Float32 := rd v 2
+  let entry := Lyon.Drive.Sweep.entryOf (v.getD 3 "")
+  let hi := rdNat v 4 == 1
+  let subs : List (SubPath Float32) := Lyon.Drive.Sweep.rdSubs v (rdNat v 5) 6
+  if !finiteSubs subs || tol.isNaN || tol ≤ 0 then "outside"
+  else
+    let r := tessellate entry rule horizontal tol hi subs
+    let rec_ := if r.2.2 % 2 == 1 then "recovered" else "norecovery"
+    if Lyon.SweepCoh.cleanB entry rule horizontal tol hi subs then "certified " ++ rec_
+    else "FAIL " ++ rec_ ++ (if hi then " ix" else " noix")
 
 def families : List Family := [
-  Family.plain "chk_fill" (fun v => SlabIO.handle "fill" false v 0) ]
+  ⟨"sweepcertwhy", sweepCertWhy, sweepCertWhy⟩,
+  Family.plain "chk_fill" (fun v => SlabIO.handle "fill" false v 0),
+  ⟨"sweepcert", sweepCert, sweepCert⟩ ]
   ++ Lyon.Drive.Sweep.families   -- `sweep:32`, `sweepc:32`: the sweep-line tessellator model itself
 
 end Lyon.Drive.C01
